@@ -183,6 +183,12 @@ carquet_status_t carquet_row_group_writer_add_column(
         return CARQUET_ERROR_OUT_OF_MEMORY;
     }
 
+    char* path = strdup(name);
+    if (!path) {
+        carquet_column_writer_destroy(col_writer);
+        return CARQUET_ERROR_OUT_OF_MEMORY;
+    }
+
     writer->column_writers[writer->num_columns] = col_writer;
 
     /* Initialize column info */
@@ -191,7 +197,7 @@ carquet_status_t carquet_row_group_writer_add_column(
     writer->column_infos[writer->num_columns].encoding = CARQUET_ENCODING_PLAIN;
     writer->column_infos[writer->num_columns].compression = writer->compression;
     writer->column_infos[writer->num_columns].type_length = type_length;
-    writer->column_infos[writer->num_columns].path = strdup(name);
+    writer->column_infos[writer->num_columns].path = path;
 
     writer->num_columns = new_count;
     return CARQUET_OK;
